@@ -180,6 +180,10 @@ func (a *An) boundsTable(rule string) {
 		}
 	}
 	a.R.Extra["new_unreferenced_functions_skipped"] = len(dead)
+	liveBCE := map[string]bool{}
+	for _, g := range a.C.FuncSeq {
+		liveBCE[a.bceName(g)] = true
+	}
 	seen := map[string]int{}
 	// reviewed multiplicities: how often each keyed expression occurs on the reviewed tree (more occurrences of the same
 	// shape in the same function are new sites); keys without an expression (inlined callee bodies) vary with inlining
@@ -231,6 +235,22 @@ func (a *An) boundsTable(rule string) {
 						break
 					}
 				}
+			}
+		}
+		if !ok && s.Expr != "" {
+			// a reviewed site of a function that is gone from the tree (a one-line helper written out in its caller): the
+			// same expression of the same kind, judged by the reviewed entry (its dominating tests are looked for here)
+			var cands []string
+			for k := range boundsTable {
+				parts := strings.SplitN(k, "|", 3)
+				if len(parts) == 3 && parts[1] == s.Kind && parts[2] == s.Expr && !liveBCE[parts[0]] {
+					cands = append(cands, k)
+				}
+			}
+			sort.Strings(cands)
+			if len(cands) > 0 {
+				e, ok = boundsTable[cands[0]], true
+				key = cands[0]
 			}
 		}
 		if !ok {
